@@ -227,7 +227,8 @@ TRestart == /\ Ev("Restart") /\ ph = "rec"
                /\ (IF d2 = 0 THEN TRUE ELSE Drift(l, <<"tracked store differs from the observed store after start-up", StoreDiff(st, e.obs)>>))
                /\ (IF d3 = 0 THEN TRUE ELSE Drift(l, <<"start-up outcome differs from the prediction", p.n.ph, p.n.mhead.id>>))
                /\ mn' = on
-               /\ win' = IF e.ok THEN [lo |-> LowestRetained(e.obs), hi |-> ctx.end] ELSE win
+               /\ win' = IF e.ok THEN [lo |-> LowestRetained(e.obs), hi |-> IF e.obs.head.h > ctx.end THEN e.obs.head.h ELSE ctx.end]
+                         ELSE win
             /\ ph' = "cont" /\ pend' = <<>> /\ clean' = NoObs
             /\ UNCHANGED <<ctx, st, plan, apps, ci>>
 
